@@ -110,10 +110,11 @@ func (mp MultiPolygon) Len() int {
 func (mp MultiPolygon) Points() func() Point {
 	var i, j, k int
 	return func() Point {
-		if i == len(mp[k][j]) {
+		// skip empty polygons and empty rings
+		for len(mp[k]) == 0 || i == len(mp[k][j]) {
 			j++
 			i = 0
-			if j == len(mp[k]) {
+			if j >= len(mp[k]) {
 				k++
 				j = 0
 			}
